@@ -164,6 +164,8 @@ def make_traces(prop, tier, seed, workdir, drive):
     names = ["fresh", "inflight", "answered", "paused", "between", "lastbatch", "oneshot", "module", "reactive", "params", "binding"]
     if tier == "quick":
         names = [n for n in names if n not in ("fresh", "lastbatch")]
+    if os.environ.get("VERIF_SKIP_S4"):      # first pass of the seeded-change runner: the cheap sources only
+        names = []
     deeper = [] if tier == "quick" else ["-steps", "5"]      # thorough: one level deeper (binding: as configured)
     with ThreadPoolExecutor(max_workers=11) as ex:
         res = list(ex.map(lambda n: drive(["explore", "-in", n, "-n", "400000", "-out", os.path.join(workdir, "s4%s.ndjson" % n)]
